@@ -1342,6 +1342,12 @@ class Interp:
         elif isinstance(st, ast.AnnAssign):
             if st.value is not None:
                 self.assign(st.target, self.eval(st.value, env), env)
+        elif isinstance(st, ast.AugAssign) and isinstance(st.op, ast.BitOr) and isinstance(self.eval(_as_load(st.target), env), dict):
+            # d |= other updates the dictionary d in place (d | other builds a new one)
+            cur_, val_ = self.eval(_as_load(st.target), env), self.eval(st.value, env)
+            if not isinstance(val_, dict):
+                raise Undecided('|= of a dictionary with an abstract value')
+            cur_.update(val_)
         elif isinstance(st, ast.AugAssign):
             load = ast.copy_location(ast.BinOp(left=_as_load(st.target), op=st.op, right=st.value), st)
             self.assign(st.target, self.eval(load, env), env)
@@ -1634,6 +1640,8 @@ class Interp:
                 return UNK
             return broadcast(arrs)
         if not (_concrete(a) and _concrete(b)):
+            if isinstance(e.op, ast.BitOr) and isinstance(a, dict) and isinstance(b, dict):
+                return {**a, **b}
             if isinstance(e.op, ast.Add) and isinstance(a, (tuple, list)) and isinstance(b, type(a)):
                 return a + b
             if isinstance(e.op, ast.Mult) and ((isinstance(a, (tuple, list)) and isinstance(b, int)) or (isinstance(b, (tuple, list)) and isinstance(a, int))):
